@@ -22,13 +22,20 @@ def build_case(rng, spec, tier):
     pool, text = make_pool(rng, n=rng.choice(prof.get("pool", (12, 24))), classes=prof.get("classes", ("real",)), long_ok=True)
     cfg = make_cfg(rng, pool, rule_prob=0.6)
     ops = gen_history(rng, cfg, pool, text, rng.choice(tp.get("nops", (20, 40))), weights=prof.get("weights"))
+    if rng.random() < 0.2:
+        cfg["backend"] = "file"
+        w = dict(prof.get("weights") or {})
+        w.update({"reopen": 0, "clear": 0, "overwrite_open": 0})
+        ops = gen_history(rng, cfg, pool, text, rng.choice((5, 10, 16)), weights=w)
+        return {"engine": "readonly", "cfg": cfg, "ops": ops, "aseed": rng.getrandbits(32), "points": [], "torn": True}
     return {"engine": "readonly", "cfg": cfg, "ops": ops, "aseed": rng.getrandbits(32), "points": sorted({rng.randrange(len(ops) + 1) for _ in range(tp.get("points", 2))} | {len(ops)})}
 
 
-def monitored_battery(sut, rng, stats, out):
-    t = sut.t
-    probes = probes_for(sut, rng)
-    probes += [b"s:http|h:zz|h:absent|p:q|", b"x|", b"s:http|"]
+def monitored_battery(sut, rng, stats, out, t=None, probes=None, lite=False):
+    t = t or sut.t
+    if probes is None:
+        probes = probes_for(sut, rng)
+    probes = list(probes) + [b"s:http|h:zz|h:absent|p:q|", b"x|", b"s:http|"]
 
     def around(name, thunk):
         w0 = M.WRITES[0]
@@ -39,7 +46,7 @@ def monitored_battery(sut, rng, stats, out):
             steps[0] += 1
             stats["C14_iterator_steps"] += 1
             if M.WRITES[0] != w0:
-                raise AssertionError("write event during iterator step %d of %s" % (steps[0], name))
+                raise B.MonitorAlarm("write event during iterator step %d of %s" % (steps[0], name))
 
         try:
             return thunk(hook)
@@ -54,8 +61,8 @@ def monitored_battery(sut, rng, stats, out):
 
     foreign = []
     try:
-        ans, (n_ok, n_ref, n_exc) = B.run(t, probes, around=around, foreign=foreign)
-    except AssertionError as e:
+        ans, (n_ok, n_ref, n_exc) = B.run(t, probes, around=around, foreign=foreign, lite=lite)
+    except B.MonitorAlarm as e:
         out.append(D(["C14"], "write-event-in-read-only-request", msg=str(e)))
         return
     stats["C14_calls_succeeded"] += n_ok
@@ -66,7 +73,61 @@ def monitored_battery(sut, rng, stats, out):
     return foreign
 
 
+def torn_states(prop, case, scratch, stats, out):
+    """Read-only requests on indexes left by an interrupted write: the history is recorded at the file
+    boundary, cut at a few block-granular points (in particular between a node and its tail blocks),
+    the folder reopened, and the reduced battery run inside the read-only window monitor."""
+    import builtins
+    import os
+    import shutil
+    import tempfile
+    from . import crashcut as CC
+    from ..gen import RX
+    from ..harness import Traph, TraphException
+
+    rng = random.Random(case["aseed"] + 1)
+    log, facts, rules, disk, feats, _ = CC.record(case, scratch, stats)
+    if facts is None:
+        return
+    allcuts = list(CC.cuts(log, 0, rng))
+    rng.shuffle(allcuts)
+    folder = tempfile.mkdtemp(prefix="vtro", dir=scratch)
+    try:
+        for label, files in allcuts[:8]:
+            for n in CC.NAMES:
+                pth = os.path.join(folder, n)
+                if files[n] is None:
+                    if os.path.exists(pth):
+                        os.remove(pth)
+                else:
+                    with builtins.open(pth, "wb") as f:
+                        f.write(files[n])
+            try:
+                t = Traph(folder=folder, default_webentity_creation_rule=RX[case["cfg"]["default"]], webentity_creation_rules=dict(rules))
+            except TraphException:
+                continue
+            except Exception:
+                continue
+            try:
+                stats["C14_batteries_on_torn_states"] += 1
+                monitored_battery(None, rng, stats, out, t=t, probes=sorted(facts[-1][1]["pages"])[:4], lite=True)
+            finally:
+                t.close()
+            if out:
+                out[-1]["detail"]["torn_state_cut"] = label
+                return
+    finally:
+        shutil.rmtree(folder, ignore_errors=True)
+
+
 def run_case(prop, case, spec, scratch, stats):
+    if case.get("torn"):
+        out = []
+        try:
+            torn_states(prop, case, scratch, stats, out)
+        except Exception as e:
+            out.append(D(["HARNESS"], "torn-state-harness-exception", exc=repr(e), tb=traceback.format_exc()[-500:]))
+        return out, {"pages": 6, "we": 1, "links": 1, "torn": True}, "torn" + hashlib.sha256(repr(case["ops"]).encode("latin-1", "replace")).hexdigest()[:12]
     sut = Sut(case["cfg"], scratch, stats)
     rng = random.Random(case["aseed"])
     out = []
